@@ -12,7 +12,8 @@ from mysql_mimic import ResultColumn, ColumnType, ResultSet
 from mysql_mimic.control import LocalControl
 from mysql_mimic.constants import KillKind
 from mysql_mimic.errors import MysqlError, ErrorCode
-from mysql_mimic.connection import AuthenticationFailed
+import mysql_mimic.connection as _mc
+AuthenticationFailed = getattr(_mc, "AuthenticationFailed", type("AuthenticationFailed", (Exception,), {}))
 from mysql_mimic import IdentityProvider, NativePasswordAuthPlugin, User
 
 
